@@ -264,6 +264,10 @@ class IdentityEliminator(IndexSumSimplifier):
                 if touched & _bound_index_counts(product):
                     # Replacing k by a below a binder of k or a would shadow or capture
                     return None
+                fi = product.ufl_free_indices
+                if isinstance(a, Index) and k.count() not in fi and a.count() not in fi:
+                    # sum_k Identity[a, k] * product = product, but without the free index a
+                    return None
                 return self._substitute(product, k, a)
         return None
 
